@@ -32,7 +32,7 @@ var kinds = []string{
 	"do-ok", "do-sep", "do-silent-cancel", "do-rst-cancel", "do-non-ok",
 	"upload3", "upload-abort-cancel", "upload-wrong-block",
 	"download3", "download-abort-cancel",
-	"dup-token", "observe-cancel", "observe-live", "observe-silent-cancel", "observe-404",
+	"dup-token", "observe-cancel", "observe-live", "observe-silent-cancel", "observe-acked-silent-cancel", "observe-404",
 	"ping-ok", "ping-silent-cancel", "oneway-non", "oneway-con-silent-cancel",
 	"incoming-con", "incoming-non", "incoming-blockwise-abort", "write-error",
 }
@@ -115,7 +115,7 @@ func scenario(c cfg) *mcx.Scenario {
 							second = true
 						})
 						_ = second
-					case "observe-cancel", "observe-live", "observe-silent-cancel", "observe-404":
+					case "observe-cancel", "observe-live", "observe-silent-cancel", "observe-acked-silent-cancel", "observe-404":
 						start("observe", func() error {
 							req := w.Request(ctx, codes.GET, "/obs", tok, message.Confirmable, nil)
 							req.SetObserve(0)
@@ -227,6 +227,10 @@ func scenario(c cfg) *mcx.Scenario {
 								ack(codes.Content, "v1", u32opt(message.Observe, 7))
 							case kind == "observe-404":
 								ack(codes.NotFound, "")
+							case kind == "observe-acked-silent-cancel":
+								if m.Type == message.Confirmable {
+									ack(codes.Empty, "") // acknowledged, but the answer never comes
+								}
 							}
 						}
 						if acted {
@@ -327,12 +331,12 @@ func main() {
 	r := ev.Start("C13", "model_checking")
 	var scs []*mcx.Scenario
 	scs = append(scs, scenario(cfg{Depth: ev.Pick(r, 3, 4), Kinds: kinds}))
-	core := []string{"do-silent-cancel", "upload-abort-cancel", "download-abort-cancel", "dup-token", "observe-cancel", "observe-silent-cancel", "incoming-blockwise-abort", "write-error", "do-ok"}
+	core := []string{"observe-acked-silent-cancel", "do-silent-cancel", "upload-abort-cancel", "download-abort-cancel", "dup-token", "observe-cancel", "observe-silent-cancel", "incoming-blockwise-abort", "write-error", "do-ok"}
 	scs = append(scs, scenario(cfg{Depth: ev.Pick(r, 4, 5), Kinds: core}))
 	addMore(r, &scs)
 	sum := mcx.Explore(r, scs, mcx.Config{Wall: ev.Pick(r, 4*time.Minute, 30*time.Minute)})
 	mcx.Report(r, scs, sum)
-	r.Set("rule", "history = sequence of exchanges, each one of 23 kinds (plain/separate/NON Do, silence+cancel, reset, 3-block upload and download with success / abort / wrong block, duplicate token, observe register+cancel / live / silent / 4.04, ping, one-way writes, incoming CON/NON requests, aborted incoming block-wise upload, injected write error); after the history the virtual clock advances 300 s and housekeeping runs twice; oracle: every table size reported by the overlay accessor (token handlers, MID handlers, per-ID locks, response cache, block-wise sending/receiving caches, limiter queues/waiters/processed, observations) is zero, observations = the live ones; distinct outcome = distinct history")
+	r.Set("rule", "history = sequence of exchanges, each one of 24 kinds (plain/separate/NON Do, silence+cancel, reset, 3-block upload and download with success / abort / wrong block, duplicate token, observe register+cancel / live / silent / 4.04, ping, one-way writes, incoming CON/NON requests, aborted incoming block-wise upload, injected write error); after the history the virtual clock advances 300 s and housekeeping runs twice; oracle: every table size reported by the overlay accessor (token handlers, MID handlers, per-ID locks, response cache, block-wise sending/receiving caches, limiter queues/waiters/processed, observations) is zero, observations = the live ones; distinct outcome = distinct history")
 	r.Sample(map[string]any{"scenario": scs[0].Name, "history": "download-abort-cancel observe-cancel"})
 	r.Assume("exchanges of one history run one after another (concurrent exchanges are covered by C03/C16)", "accessors are additional files injected by the overlay (hooks/std), no line of /repo changes")
 	r.Finish()
